@@ -216,6 +216,20 @@ func genStraightBranch(r *sim.Rand, flags uint8) []sim.Op {
 			w = v
 		}
 		out := []sim.Op{{K: "ins", S: ld, N: []int64{v}}, {K: "ins", S: cp, N: []int64{w}}}
+		if r.Chance(1, 3) {
+			// branch on the sign of the difference (at the width of the compare)
+			neg := (v-w)&0x80 != 0
+			if wide {
+				neg = (v-w)&0x8000 != 0
+			}
+			if neg {
+				if r.Chance(1, 2) {
+					return append(out, imm("BPL_imm8"))
+				}
+				return append(out, ref("BPL")...)
+			}
+			return append(out, ref("BMI")...)
+		}
 		switch {
 		case v == w: // Z=1 C=1
 			if r.Chance(1, 2) {
